@@ -111,6 +111,8 @@ func newLab(nodeSeed byte) *lab {
 	k("SEND_SECP256K1", secp, one(secp), func(m string) []byte { return txSend(secp, u1.Addr, oltAmt("1000000000000"), m) })
 	k("SENDPOOL", u0, one(u0), func(m string) []byte { return txSendPool(u0, "BountyPool", oltAmt("1000000000000"), m) })
 	k("STAKE", v0.Stake, []Key{v0.Stake, v0.Val}, func(m string) []byte { return txStake(v0, oltAmt("10"), m) })
+	self := ValSpec{Val: w.Extra[1].Stake, Stake: w.Extra[1].Stake} // a node staking from its own (funded) node key
+	k("STAKE_SELF", self.Stake, []Key{self.Stake, self.Val}, func(m string) []byte { return txStake(self, oltAmt("600000"), m) })
 	k("UNSTAKE", v0.Stake, []Key{v0.Stake, v0.Val}, func(m string) []byte { return txUnstake(v0, oltAmt("5"), m) })
 	k("WITHDRAW", v1.Stake, []Key{v1.Stake, v1.Val}, func(m string) []byte { return txWithdraw(v1, oltAmt("1000"), m) })
 	k("ADD_NETWORK_DELEGATE", u3, one(u3), func(m string) []byte { return txDelegate(u3, oltAmt("1000000000000"), m) })
@@ -212,7 +214,11 @@ func (l *lab) mutants(k labKind, base []byte) []labMutant {
 	add := func(name, class string, f func(tx *action.SignedTx) bool) {
 		tx := decodeSigned(base)
 		if f(tx) {
-			ms = append(ms, labMutant{name, class, encodeSigned(tx)})
+			bz := encodeSigned(tx)
+			if bytes.Equal(bz, encodeSigned(decodeSigned(base))) {
+				return // not a mutation of this transaction (e.g. swapping two identical signatures)
+			}
+			ms = append(ms, labMutant{name, class, bz})
 		}
 	}
 	add("type", "content", func(tx *action.SignedTx) bool {
@@ -266,6 +272,16 @@ func (l *lab) mutants(k labKind, base []byte) []labMutant {
 		tx.Signatures[0].Signer = p
 		return true
 	})
+	// somebody else's PUBLIC key with junk bytes in slot 0 (the fee payer slot), genuine signatures in
+	// the other slots: the count matches, but slot 0 is not a signature of a required signer
+	{
+		tx := decodeSigned(base)
+		if len(tx.Signatures) >= 2 {
+			victim := l.W.Users[4]
+			tx.Signatures[0] = action.Signature{Signer: victim.Pub, Signed: bytes.Repeat([]byte{0x33}, 64)}
+			ms = append(ms, labMutant{"sig.slot0-foreign-pubkey-junk", "attacker", encodeSigned(tx)})
+		}
+	}
 	// the required signer's PUBLIC key relabelled with every other key algorithm, with junk, empty
 	// and the original signature bytes: no algorithm's handler may accept it for that address
 	for _, alg := range []string{"ed25519", "secp256k1", "btcecsecp", "ethsecp"} {
